@@ -318,6 +318,14 @@ func trimStack(b []byte) string {
 			}
 			continue
 		}
+		if !strings.HasPrefix(l, "\t") {
+			// drop argument values (addresses differ between runs)
+			if i := strings.LastIndex(l, "("); i > 0 {
+				l = l[:i] + "(...)"
+			}
+		} else if i := strings.Index(l, " +0x"); i > 0 {
+			l = l[:i]
+		}
 		out = append(out, l)
 		if len(out) > 24 {
 			break
